@@ -119,6 +119,18 @@ def work(job):
                 gf.raw("    let filler_%d = \"%s\";%s" % (k, "-+" * rnd.randrange(0, 1500), eol))
         files = {"src/big.rs": gf.data()}
         truth = {"src/big.rs": [(it.start, it.end, it.start + it.stmt.msg, None, it) for it in gf.stmts()]}
+    elif kind == "crafted":
+        # hand-written edge cases (shared with C17) plus byte-level oddities around insertion points
+        from . import c17
+        extra = [b"\xef\xbb\xbfinfo!(\"bom first\");\nwarn!(\"second\");\n", b"info!(\"nul \x00 inside\"); // \x00\nwarn!(\"x\");\n",
+                 b"info!(\"a\");\rwarn!(\"cr only\");\rerror!(\"c\");\r", b"info!(\"\");info!(\"\");info!(\"\");warn!(\"\")",
+                 b"info!(\"trailing spaces\");   \n   \n\t\nwarn!(\"x\");  ", b"info!(\"[ref: 1] [ref: 1] twice\"); info!(\"[ref: 1] \");\ninfo!(\"x\");",
+                 b"info!(\"last statement, no newline\")", b"\n\n\ninfo!(\"only\")\n\n\n", b"info!(ref = 1; \"[ref: 2] both forms\"); info!(\"z\");\n",
+                 ("info!(\"" + "é" * 5000 + "\"); warn!(\"after a long multi-byte message\");\n").encode(),
+                 b"info!(\"x\");" * 700]
+        allc = list(c17.CRAFTED) + extra
+        files = {"src/c%04d.rs" % k: d for k, d in enumerate(allc[payload::4])}
+        structured = (i % 2 == 1)
     elif kind == "corpus":
         label, files = payload
         structured = (i % 3 == 2)
@@ -172,6 +184,8 @@ def main(tier):
         jobs.append((built, "genmut", ck.seed, i, None))
     for i, n in enumerate([1200, 2500] if quick else [1200, 2500, 4000, 6000, 1500, 3000]):
         jobs.append((built, "big", ck.seed, i, n))
+    for i in range(8):
+        jobs.append((built, "crafted", ck.seed, i, i % 4))
     shards, reg = trees.corpus_shards(rnd, 16, registry_n=0 if quick else 1500)
     for i, sh in enumerate(shards):
         jobs.append((built, "corpus", ck.seed, i, sh))
